@@ -116,7 +116,7 @@ func runC19(t *rapid.T) {
 	}
 	tr.Driver = cfg
 	if rapid.IntRange(0, 3).Draw(t, "useprecision") == 0 {
-		tr.Precision = rapid.IntRange(1, 6).Draw(t, "precision")
+		tr.Precision = rapid.IntRange(1, 17).Draw(t, "precision")
 	}
 	core.Eval()
 
@@ -332,9 +332,11 @@ func readBack(t *rapid.T, tr *c19Trace, tx *sql.Tx, readConf []qsql.ConfigFunc, 
 	gotObs := obs.Of(got)
 	core.Event(which, fmt.Sprint(gotObs))
 	if tr.Precision > 0 && !gotObs.HasErr && gotObs.Bad == "" && len(gotObs.Cols) == len(exp.Cols) && gotObs.Len == exp.Len {
-		// Precision(p): |got - want| <= 0.5 * 10^-p (1 + eps), checked for values
-		// whose scaled magnitude stays far inside the integer range; then the
-		// cell is taken as matching.
+		// Precision(p): the value is rounded to p decimals, i.e.
+		// (a) |got - want| <= 0.5 * 10^-p (1 + eps) and
+		// (b) got is (within a few ulps) the float of k x 10^-p for an integer k,
+		// checked for values whose scaled magnitude stays far inside the
+		// integer range; then the cell is taken as matching.
 		for c, typ := range exp.Types {
 			if typ != "float" || gotObs.Types[c] != "float" {
 				continue
@@ -344,14 +346,20 @@ func readBack(t *rapid.T, tr *c19Trace, tx *sql.Tx, readConf []qsql.ConfigFunc, 
 				if math.IsNaN(want) && which == "null-floats" {
 					continue // a NULL is NaN whatever the precision: compared as is
 				}
-				if math.IsNaN(want) || math.IsInf(want, 0) || math.Abs(want) > 1e9 {
+				if math.IsNaN(want) || math.IsInf(want, 0) || math.Abs(want)*math.Pow(10, float64(tr.Precision)) > 1e15 {
 					// rounding a stored NaN/Inf/huge value is not specified
 					gotObs.Cols[c][r] = exp.Cols[c][r]
 					continue
 				}
 				tol := 0.5 * math.Pow(10, -float64(tr.Precision)) * (1 + 1e-9)
-				if math.Abs(got-want) <= tol+math.Abs(want)*1e-15 {
+				k := math.Round(got * math.Pow(10, float64(tr.Precision)))
+				grid, _ := strconv.ParseFloat(strconv.FormatFloat(k, 'f', 0, 64)+"e-"+strconv.Itoa(tr.Precision), 64)
+				ulp := math.Nextafter(math.Abs(grid), math.Inf(1)) - math.Abs(grid)
+				if math.Abs(got-want) <= tol+math.Abs(want)*1e-15 && math.Abs(got-grid) <= 4*ulp {
 					gotObs.Cols[c][r] = exp.Cols[c][r]
+				} else {
+					// also when the stored value came back untouched
+					gotObs.Cols[c][r] += fmt.Sprintf(" (%v is not %v rounded to %d decimals)", got, want, tr.Precision)
 				}
 			}
 		}
